@@ -183,6 +183,7 @@ type frameOpts struct {
 	noCipher bool // ControlHandler.DisableSrcCiphering
 	inter    int  // what Reader.OnIntermediate is (inter* constants)
 	onCont   bool // Reader.OnContinuation installed (reads a few bytes of the fragment)
+	cont     bool // Reader entry: go on with NextFrame after a message-level error that left the transport at a frame start
 	chunks   []int
 	bufSize  int
 }
@@ -208,6 +209,7 @@ const frameCtl = 4
 
 func decodeFrameOpts(data []byte) (o frameOpts, stream []byte) {
 	o.entry = int(data[0]) % len(frameEntries)
+	o.cont = int(data[0])/len(frameEntries)&1 == 1
 	a, b := data[1], data[2]
 	switch a & 3 {
 	case 0:
@@ -299,8 +301,8 @@ func targetFrames(data []byte) error {
 	entry := frameEntries[o.entry]
 	note("frames", entry, deep, data)
 	if err != nil {
-		return fmt.Errorf("%v\nentry=%s state=%#x utf8=%v ext=%v inflate=%v max=%d skip=%v onIntermediate=%d onContinuation=%v handle=%v discard=%v chunks=%v eofWithData=%v\nstream=%x",
-			err, entry, uint8(o.state), o.utf8, o.ext, o.inflate, o.max, o.skip, o.inter, o.onCont, o.handle, o.discard, o.chunks, o.eofData, stream)
+		return fmt.Errorf("%v\nentry=%s state=%#x utf8=%v ext=%v inflate=%v max=%d skip=%v onIntermediate=%d onContinuation=%v continueAfterError=%v handle=%v discard=%v chunks=%v eofWithData=%v\nstream=%x",
+			err, entry, uint8(o.state), o.utf8, o.ext, o.inflate, o.max, o.skip, o.inter, o.onCont, o.cont, o.handle, o.discard, o.chunks, o.eofData, stream)
 	}
 	return nil
 }
@@ -325,7 +327,7 @@ func execFrames(data []byte) (deep bool, err error) {
 	})
 	if err == nil && !o.inflate {
 		if got, budget := heapAllocs()-before, allocBudget(len(stream), len(wk)); got > budget {
-			err = fmt.Errorf("%s allocated %d bytes while decoding a stream of %d bytes in %d frames (budget %d = 8 MiB + 32 x bytes + 8 KiB x frames; the largest announced length is %d): allocation follows what the peer announces, not what it sent",
+			err = fmt.Errorf("%s allocated %d bytes while decoding a stream of %d bytes in %d frames (budget %d = 8 MiB + 32 x bytes + 48 KiB x frames; the largest announced length is %d): allocation follows what the peer announces, not what it sent",
 				frameEntries[o.entry], got, len(stream), len(wk), budget, maxAnnounced(wk))
 		}
 	}
@@ -345,9 +347,10 @@ func maxAnnounced(ws []walked) (m int64) {
 // frames (or header lines) may allocate in total: a constant that covers the
 // library's fixed first buffers (1 MiB payload pre-allocation, bufio buffers),
 // a multiple of the input for buffers grown by doubling or by io.ReadAll, and
-// a per-frame allowance for the small fixed allocations of the helpers.
+// a per-frame allowance for the fixed allocations of the helpers (the control
+// handler's io.Copy alone takes a 32 KiB buffer per answered ping).
 func allocBudget(n, frames int) uint64 {
-	return 8<<20 + 32*uint64(n) + 8192*uint64(frames)
+	return 8<<20 + 32*uint64(n) + 48<<10*uint64(frames)
 }
 
 // heapAllocs is the cumulative number of bytes allocated on the heap by this
@@ -582,10 +585,35 @@ func runReader(o frameOpts, src *tx.Src, rec *capRec) (deep bool, err error) {
 	var fr *wsflate.Reader
 	var lastCnt *cntReader
 	frames := 0
+	// Continue mode: a long-lived reader whose caller answers a message-level
+	// error (invalid UTF-8 at the end of a text message, an error of the
+	// control handler, a refused frame without payload, …) by going on with
+	// NextFrame. Only when the transport stands exactly at the start of a
+	// frame (so "the next frame" is well defined) and only if the failed step
+	// consumed input (so the walk ends).
+	starts := map[int]bool{}
+	if o.cont {
+		for _, w := range walk(src.Data) {
+			starts[w.start] = true
+		}
+	}
+	msgs := 0
+	lastErrPos := -1
+	goOn := func() bool {
+		if !o.cont || !starts[src.Pos] || src.Pos <= lastErrPos {
+			return false
+		}
+		lastErrPos = src.Pos
+		hx.Class("frames/Reader/continued-after-error")
+		return true
+	}
 	for {
 		wasFrag := rd.State.Fragmented()
 		h, e := rd.NextFrame()
 		if e != nil {
+			if viol == nil && goOn() {
+				continue
+			}
 			break
 		}
 		frames++
@@ -611,7 +639,14 @@ func runReader(o frameOpts, src *tx.Src, rec *capRec) (deep bool, err error) {
 			r = fr
 			fallthrough
 		default:
-			_, e = drain(r, src, o.bufSize, maxOut, &viol)
+			// every other message is read through a much smaller window, so
+			// that a count carried over from an earlier, larger read shows
+			win := o.bufSize
+			if msgs%2 == 1 {
+				win = (o.bufSize + 63) / 64
+			}
+			msgs++
+			_, e = drain(r, src, win, maxOut, &viol)
 			if e == nil {
 				// output bound reached: stop here, a decompression bomb is not in the statement
 				hx.Class("frames/Reader/output-bound")
@@ -630,7 +665,7 @@ func runReader(o frameOpts, src *tx.Src, rec *capRec) (deep bool, err error) {
 		if lastCnt != nil && lastCnt.runaway {
 			return true, fmt.Errorf("wsflate.Reader over wsutil.Reader: the decompressor read its source %d times for %d bytes of input", lastCnt.n, len(src.Data))
 		}
-		if e != nil {
+		if e != nil && !goOn() {
 			break // the reader reported an error: stop using it
 		}
 	}
